@@ -223,9 +223,10 @@ Mut == \/ \E p \in committed, ws \in Batches(nops), h \in Heights : Set(p, ws, h
        \/ \E r \in pending : Commit(r) \/ Rollback(r)
        \/ \E r \in Known : CommitNP(r) \/ RollbackNP(r)
        \/ Reopen
-Read == \/ \E r \in committed, k \in Keys : Get(r, k)
-        \/ \E r \in committed, lo \in Bounds, hi \in Bounds, asc \in BOOLEAN, incl \in BOOLEAN, lim \in 0..2 :
-              Iter(r, lo, hi, asc, incl, lim)
+ReadGet == \E r \in committed, k \in Keys : Get(r, k)
+ReadIter == \E r \in committed, lo \in Bounds, hi \in Bounds, asc \in BOOLEAN, incl \in BOOLEAN, lim \in 0..2 :
+               Iter(r, lo, hi, asc, incl, lim)
+Read == ReadGet \/ ReadIter
 Next == Mut \/ Read
 
 Spec == Init /\ [][Next]_vars
